@@ -3,6 +3,7 @@
 package table
 
 import (
+	"github.com/named-data/ndnd/dv/config"
 	enc "github.com/named-data/ndnd/std/encoding"
 )
 
@@ -118,3 +119,11 @@ func (fib *Fib) Vf19Dump() []Vf19FibPrefix {
 
 // Vf19Sizes returns len(prefixes), len(names), len(mark).
 func (fib *Fib) Vf19Sizes() (int, int, int) { return len(fib.prefixes), len(fib.names), len(fib.mark) }
+
+// Vf19SetSnapshotAt overwrites pt.snapshotAt (behavioural probe of the snapshot-threshold test in publishOp).
+func (pt *PrefixTable) Vf19SetSnapshotAt(v uint64) { pt.snapshotAt = v }
+
+// Vf19Consts returns the package-level constants the C19 model depends on, evaluated by the compiler.
+func Vf19Consts() map[string]uint64 {
+	return map[string]uint64{"CostInfinity": config.CostInfinity, "NlsrOrigin": config.NlsrOrigin}
+}
